@@ -65,6 +65,15 @@ def build(chk):
                 for r in reasons:
                     chk.count("avoided:" + r)
                 continue
+            # a query whose result (or an intermediate result) the model already refuses as too large is legitimately slow at
+            # batch sizes of 1-8 (millions of batches): it would only buy a watchdog timeout
+            spec = qcheck.model_eval(db, q)
+            if spec["kind"] == "unspecified" and "too large" in str(spec.get("reason", "")):
+                chk.count("dropped: result too large for the small-batch configurations")
+                continue
+            if spec["kind"] == "rows" and len(spec["full_rows"]) > 20000:
+                chk.count("dropped: result too large for the small-batch configurations")
+                continue
             qs.append((q, sql, set(g.tags)))
         # DML whose counts/contents must not depend on the configuration
         dml = []
